@@ -197,8 +197,27 @@ def call_func(ex, st, fi, fv, args, kw, line):
         # loop contracts
         yield from inline(ex, st, fi, finfo, args, kw, line, fv)
         return
+    if _new_helper(ex, finfo):
+        # a function the reference tree does not have (extract-method
+        # refactoring), with loops that are not loops of the caller: it is
+        # executed from its real body; its loops have no invariant (an
+        # element-wise `for t in L: t.a = e` is executed as a map, any other
+        # loop is cut with `true` and recorded as over-approximated)
+        yield from inline(ex, st, fi, finfo, args, kw, line, fv)
+        return
     raise Unsupported('call of %s (no contract, not inlinable) at %s:%d' % (
         q, fi.qual, line))
+
+
+def _new_helper(ex, finfo):
+    from . import alpha
+    unit = finfo.qual.split('.<locals>.')[0]
+    if unit in alpha.ref():
+        return False
+    for n in ast.walk(finfo.node):
+        if isinstance(n, (ast.AsyncFor, ast.Yield, ast.YieldFrom, ast.Try)):
+            return False
+    return True
 
 
 def _moved_loops(ex, finfo):
